@@ -1,6 +1,9 @@
 """C05 Streaming mode agrees with whole-circuit mode."""
 import hashlib
+import json
+import os
 import re
+import sys
 
 import vlib
 
@@ -33,6 +36,14 @@ THEOREMS = [
     "Mpc.C05_gcOld_chain_ids_collide",
     "Mpc.C05_gcOld_unsafe_concat",
     "Mpc.C05_gcOld_concat_ids_collide",
+    "Mpc.C05_gc_query_safe",
+    "Mpc.C05_gc_query_table",
+    "Mpc.C05_gc_current_set_sound",
+    "Mpc.C05_gcMemo_pass",
+    "Mpc.C05_gcMemo_unsafe",
+    "Mpc.C05_gcMemo_not_current_sound",
+    "Mpc.C05_gcMemo_ids_collide",
+    "Mpc.C05_gcMemo_witness_now_safe",
 ]
 
 # opcode sets the models assume (Model/Gc.lean: Op.gcAlias, Op.rewires)
@@ -149,6 +160,27 @@ def facts(ctx):
                [resolve_int(se, t) for t in re.findall(r"gop&([A-Za-z_0-9]+) != 0", body)], [0x80, 0x40, 0x20, 0x10])
 
 
+def replay_exact(ctx):
+    """`bin/check C05 --replay F`: F holds one program and one input pair; run exactly that case (real streaming pair
+    vs real whole circuit) before the seeded run that regenerates it."""
+    if "--replay" not in sys.argv:
+        return
+    try:
+        rp = sys.argv[sys.argv.index("--replay") + 1]
+        rp = rp if os.path.isabs(rp) else os.path.join(vlib.VERIF, rp)
+        f = json.load(open(rp)).get("failure") or {}
+    except Exception:
+        return
+    if not f.get("src"):
+        return
+    rc, log = vlib.sh([ctx.hx, "replay", rp], env=vlib.GOENV, timeout=600)
+    print("replayed case %s of seed %s (%s):\n%s" % (f.get("case"), f.get("seed"), f.get("class"), vlib.indent(log[-2500:])))
+    if rc != 0:
+        g = dict(f)
+        g["found_by"] = "exact replay of " + os.path.basename(rp)
+        ctx.fails.append(g)
+
+
 def run(ctx):
     ctx.prove("MpcVerif.Props.C05", THEOREMS)
     if ctx.tier == "thorough":
@@ -157,10 +189,20 @@ def run(ctx):
     facts(ctx)
     quick = ctx.tier == "quick"
     if ctx.build_hx():
+        replay_exact(ctx)
         seeds = [ctx.seed] if quick else [ctx.seed, ctx.seed + 1000, ctx.seed + 2000, ctx.seed + 3000]
         n_or = 900 if quick else 4000
         n_co = 300 if quick else 5000
+        n_upd = 200 if quick else 600
         for s in seeds:
+            # class upd: element updates inside if / else and loops, every combination of the conditions
+            ops, out, meta = ctx.run_hx("oracle", n_upd, seed=s, tag="-upd", timeout=1500, extra_args=["-extra", "upd"])
+            ctx.absorb_meta(meta)
+            ctx.correspond("Program.GC + wire allocator trace on programs with element updates inside if / else and "
+                           "loops (seed %d)" % s, ops, out)
+            for line in open(ops, errors="replace"):
+                if not line.startswith("c05 skip"):
+                    ctx.distinct.add(hashlib.sha1(line.encode()).digest())
             ops, out, meta = ctx.run_hx("oracle", n_or, seed=s, timeout=1500)
             ctx.absorb_meta(meta)
             ctx.correspond("Program.GC (defineBeforeUse + gc insertion, also on scrambled step lists) + wire allocator "
@@ -173,6 +215,13 @@ def run(ctx):
             ctx.correspond("Streaming.Garble bytes (seed %d)" % s, ops, out)
             for line in open(ops, errors="replace"):
                 ctx.distinct.add(hashlib.sha1(line.encode()).digest())
+        if ctx.widen:
+            for s in range(ctx.seed + 7000, ctx.seed + 7002):
+                ops, out, meta = ctx.run_hx("oracle", 1200, seed=s, tag="-upd-widen", timeout=1500,
+                                            extra_args=["-extra", "upd"])
+                ctx.absorb_meta(meta, prefix="widen_")
+                if ctx.fails:
+                    break
         if ctx.widen:
             for s in range(ctx.seed + 7000, ctx.seed + 7003):
                 ops, out, meta = ctx.run_hx("oracle", 2000, seed=s, tag="-widen", timeout=1500,
@@ -211,8 +260,28 @@ def run(ctx):
         ctx.oblige("every rewiring operand (and phi, index) occurred in the streamed programs", not missing, str(missing))
         ctx.oblige("the two hand-found witnesses of the pre-0c2f851 GC defects ran (corpus programs)",
                    c.get("class_corpus", 0) >= 3, str(c))
+        ctx.oblige("the source of the Lean witness memoProg (C05_gcMemo_unsafe) and its mirror image ran on both values of "
+                   "the condition", c.get("feat_upd_corpus", 0) >= 2, str(c.get("feat_upd_corpus")))
+        upd = {k: v for k, v in c.items() if "upd" in k or k in ("alt_vectors", "oracle_fail")}
+        ctx.oblige("class upd: every program ran on every combination of its conditions and the whole-circuit results "
+                   "show that every branch was taken (except programs on which a failing input was found)",
+                   c.get("upd_some_branch_not_taken", 0) == 0 and
+                   c.get("upd_all_branches_taken", 0) + c.get("oracle_fail", 0) >= c.get("upd_tagged", 1) - c.get("reference_unavailable", 0)
+                   and c.get("alt_vectors", 0) >= c.get("class_upd", 0), str(upd))
+        miss = [k for k in ("upd_if", "upd_loop", "upd_store_burst", "upd_reuse_after_burst", "upd_store_field", "upd_struct",
+                            "upd_second_array", "upd_array_is_evaluator_input", "upd_no_else", "upd_tail_alloc", "upd_read_elem")
+                if c.get("feat_" + k, 0) == 0]
+        ctx.oblige("class upd: array and struct-field updates in if / else branches and loops, update bursts with the stored "
+                   "scalar used again, same-width computations after the merge, either party owning the array", not miss,
+                   str(miss))
     ctx.coverage["rule"] = (
-        "oracle: seeded grammar-based MPCL programs in 4 classes (alias-heavy with few widths, mixed, unsized main "
+        "oracle: class upd (array / struct-field element updates inside if / else, nested if and loops, bursts of updates "
+        "of one array, the stored scalar used again afterwards, computations of the scalar's width after the merge; each "
+        "program runs on all 2^k combinations of its k conditions and a tag result proves on the whole-circuit reference "
+        "that every branch was taken); a program whose real GC'd step list frees a range that is still pointed at but whose "
+        "session agreed goes to the exposure search (fresh inputs; variants that return a dropped variable; variants with a "
+        "computation of the freed range's width inserted at the statement boundaries - run only if the variant's own step "
+        "list still has the early free); seeded grammar-based MPCL programs in 4 classes (alias-heavy with few widths, mixed, unsized main "
         "arguments instantiated from the input sizes, garbler argument [>1024]uint64 so that wire ids exceed 65535, a boundary sweep around id 65536, and small "
         "programs with ONE instruction circuit of more than 65536 wires - wide division/modulo/multiplication - so that "
         "temporary wire indexes exceed 65535 while persistent ids are small; a collide class that renames identifiers - "
@@ -241,7 +310,10 @@ def run(ctx):
         "the global wire store for any tweak-counter start, C05_gc_safe: Program.GC (alias table closed transitively over "
         "the eight rewiring operands) never frees a range a later-read value points into, for every well-formed step list; "
         "for the pre-fix pass gcPassOld the partial theorem and the two negation witnesses with allocator-model id "
-        "collisions are kept. Tie: Lean gcPass + allocator/rewiring model vs the real GC'd step list, the real return wire ids and "
+        "collisions are kept. C05_gc_query_safe: the same safety for every implementation of the aliasLive query with any "
+        "state kept between queries, provided each answer is sound for the set it is asked about; Program.GC is the "
+        "stateless instance; a memo table of answers that lives for the whole backward pass is not (C05_gcMemo_unsafe, "
+        "witness: update chain in one branch of an if / else, allocator-model id collision). Tie: Lean gcPass + allocator/rewiring model vs the real GC'd step list, the real return wire ids and "
         "per-circuit max ids parsed from the wire; Lean streamGarble + record encoder vs real Streaming.Garble bytes "
         "(several circuits per Streaming object, ids on both sides of 65535). Facts: alias operand set of GC, special-cased "
         "operands of Stream, op-byte flags, tweak counter placement.")
